@@ -21,11 +21,21 @@ ASSUMPTIONS = ["dyadic units: start + i*hop and the comparisons of the implement
                "decimal units are out of scope for exact verdicts (one-ulp effects are not property violations)"]
 
 _REC = data.Recording(path="a.wav", duration=1000.0, channels=1, samplerate=8000)
+# segment_clip is stated on the clip's times only: the recording's sampling rate (a coarse one: a sample period of 0.5 s is
+# longer than most windows here) and its time expansion must not change any window
+_RECS_BY_UNIT = {}
+def _rec_for(u):
+    if u not in _RECS_BY_UNIT:
+        k = len(_RECS_BY_UNIT) % 3
+        _RECS_BY_UNIT[u] = [_REC,
+                            data.Recording(path="a.wav", duration=1000.0, channels=1, samplerate=2),
+                            data.Recording(path="a.wav", duration=1000.0, channels=1, samplerate=8000, time_expansion=10.0)][k]
+    return _RECS_BY_UNIT[u]
 
 _REC2 = data.Recording(path="b.wav", duration=2000.0, channels=2, samplerate=44100)
 
 def _run(case, u):
-    clip = data.Clip(recording=_REC, start_time=case["s"] * u, end_time=case["e"] * u,
+    clip = data.Clip(recording=_rec_for(u), start_time=case["s"] * u, end_time=case["e"] * u,
                      uuid=uuid.UUID(int=1000 + (case["s"] + 1_000_000) * 1024 + case["e"]))
     # the same bounds on ANOTHER recording under another parent id, segmented right afterwards in the same process:
     # a result must depend on its own arguments only
@@ -47,7 +57,7 @@ def _run(case, u):
     w3, w4 = [], []
     try:
         # the base clip is SHORTER than the case's clip (half its length): a stale duration would end the loop early
-        base = data.Clip(recording=_REC, start_time=case["s"] * u, end_time=(case["s"] + (case["e"] - case["s"]) // 2) * u,
+        base = data.Clip(recording=_rec_for(u), start_time=case["s"] * u, end_time=(case["s"] + (case["e"] - case["s"]) // 2) * u,
                          uuid=uuid.UUID(int=7_000_000 + (case["s"] + 1_000_000) * 1024 + case["e"]))
         _ = base.duration
         list(segment_clip(base, max(case["d"], 1) * u))
@@ -153,7 +163,11 @@ def extra_observations(work, tier, seed):
             raise Machinery("child interpreter for the cross-process identifiers failed: " + p.stderr[-400:])
         others.append(json.loads(p.stdout.strip().splitlines()[-1]))
     for k, c in enumerate(cases):
-        out = execute(c)
+        try:
+            out = execute(c)
+        except Exception as ex:      # e.g. a window off the lattice: an observation (NoCrash decides), as in the worker processes
+            yield {"src": "xproc", "in": c, "out": {"crashed": f"{type(ex).__name__}: {str(ex)[:200]}"}}
+            continue
         same = here[k] == others[0][k] == others[1][k]
         for r in out["runs"]:
             r["ids_repeat"] = bool(r["ids_repeat"] and same)
